@@ -4,8 +4,10 @@ import (
 	"context"
 	"fmt"
 	"reflect"
+	goruntime "runtime"
 	"strings"
 	"sync"
+	"sync/atomic"
 	"time"
 
 	corev1 "k8s.io/api/core/v1"
@@ -35,10 +37,30 @@ type IClient struct {
 	Quiet int                 // >0: calls are neither logged nor announced (harness-internal deliveries)
 	// Sched, when set, is called before every call WITHOUT the client lock held: the cooperative scheduler's yield point
 	Sched func(label string)
+	// SchedAfter, when set, is called right after every call returned (same contract as Sched)
+	SchedAfter func(label string)
 	// GracefulPods makes pod deletion graceful (deletionTimestamp = now + grace; the pod stays until the environment removes it)
 	GracefulPods bool
 	seq          int
 	mu           sync.Mutex // calls may come from fan-out goroutines (client-go ParallelizeUntil)
+	// SerializeSched: Sched is called under a lock of its own (re-entrant for the goroutine that holds it)
+	SerializeSched bool
+	schedMu        sync.Mutex
+	schedOwner     atomic.Int64
+}
+
+// goroutineID parses the id out of the first line of the goroutine's stack ("goroutine 123 [running]:").
+func goroutineID() int64 {
+	var buf [64]byte
+	n := goruntime.Stack(buf[:], false)
+	var id int64
+	for _, b := range buf[len("goroutine "):n] {
+		if b < '0' || b > '9' {
+			break
+		}
+		id = id*10 + int64(b-'0')
+	}
+	return id
 }
 
 func kindOf(o any) string {
@@ -59,11 +81,28 @@ func (c *IClient) beginSel(verb string, obj any, sel string) (*Call, error) {
 
 func (c *IClient) beginCall(call *Call) (*Call, error) {
 	verb, name := call.Verb, call.Name
-	if c.Quiet > 0 {
-		return call, nil
-	}
-	if c.Sched != nil {
-		c.Sched(verb + " " + call.Kind + "/" + name)
+	if c.SerializeSched && c.Sched != nil {
+		// the code under test fans calls out over worker goroutines: announce them one at a time, and make a worker that
+		// arrives while another one's announcement runs an environment event (Quiet > 0 meanwhile) wait for its end
+		if gid := goroutineID(); c.schedOwner.Load() != gid {
+			c.schedMu.Lock()
+			c.schedOwner.Store(gid)
+			if c.Quiet == 0 {
+				c.Sched(verb + " " + call.Kind + "/" + name)
+			}
+			c.schedOwner.Store(0)
+			c.schedMu.Unlock()
+		}
+		if c.Quiet > 0 {
+			return call, nil
+		}
+	} else {
+		if c.Quiet > 0 {
+			return call, nil
+		}
+		if c.Sched != nil {
+			c.Sched(verb + " " + call.Kind + "/" + name)
+		}
 	}
 	c.mu.Lock()
 	defer c.mu.Unlock()
@@ -84,13 +123,17 @@ func (c *IClient) end(call *Call, err error) error {
 		return err
 	}
 	c.mu.Lock()
-	defer c.mu.Unlock()
 	if err != nil {
 		call.Err = errString(err)
 	}
 	c.Log = append(c.Log, *call)
 	if c.After != nil {
 		c.After(call)
+	}
+	c.mu.Unlock()
+	if c.SchedAfter != nil {
+		// the instant right after the call returned: before the caller reads any in-memory state (cluster cache) again
+		c.SchedAfter(call.Verb + " " + call.Kind + "/" + call.Name)
 	}
 	return err
 }
@@ -306,16 +349,24 @@ func (s *iSub) Create(ctx context.Context, obj client.Object, sr client.Object, 
 		return err
 	}
 	call.Object = obj.DeepCopyObject()
-	return s.c.end(call, s.c.evict(ctx, obj.(*corev1.Pod), sr))
+	uid, err := s.c.evict(ctx, obj.(*corev1.Pod), sr)
+	if err == nil {
+		call.Note = "evicted-uid=" + uid // the pod the API server actually removed (an eviction is resolved by NAME)
+	}
+	return s.c.end(call, err)
 }
 
 // evict implements the eviction sub-resource: UID precondition, PDB admission (429 when a matching PDB allows no
 // disruptions, 500 when more than one PDB matches), then a (graceful) delete.
-func (c *IClient) evict(ctx context.Context, pod *corev1.Pod, sr client.Object) error {
+func (c *IClient) evict(ctx context.Context, pod *corev1.Pod, sr client.Object) (string, error) {
 	cur := &corev1.Pod{}
 	if err := c.WithWatch.Get(ctx, client.ObjectKeyFromObject(pod), cur); err != nil {
-		return err
+		return "", err
 	}
+	return string(cur.UID), c.evictCurrent(ctx, pod, cur, sr)
+}
+
+func (c *IClient) evictCurrent(ctx context.Context, pod, cur *corev1.Pod, sr client.Object) error {
 	var do client.DeleteOptions
 	if e, ok := sr.(*policyv1.Eviction); ok && e.DeleteOptions != nil {
 		if e.DeleteOptions.Preconditions != nil && e.DeleteOptions.Preconditions.UID != nil && *e.DeleteOptions.Preconditions.UID != cur.UID {
